@@ -68,6 +68,7 @@ def bitof(byte, m):
 
 class Write(Contract):
     relpath, qualname, name = BIO, 'BitWriter.write', 'BitWriter.write'
+    frame_fields = (('BitWriter', '_bit_pos'),)
 
     def setup(self, it, ctx):
         m = it.load_module('cirbo.circuits_db.bit_io')
@@ -103,6 +104,7 @@ class Write(Contract):
 
 class Read(Contract):
     relpath, qualname, name = BIO, 'BitReader.read', 'BitReader.read'
+    frame_fields = (('BitReader', '_bit_pos'), ('BitReader', '_byte_pos'))
 
     def setup(self, it, ctx):
         m = it.load_module('cirbo.circuits_db.bit_io')
